@@ -41,4 +41,9 @@ def extra(binary, build, tier, rng):
     specs = []
     for (kind, n, k) in [("shuf", 2, 0), ("shuf", 3, 0), ("shuf", 4, 0), ("shuf", 5, 0), ("pshuf", 4, 2), ("pshuf", 6, 2), ("pshuf", 5, 4), ("pshuf", 5, 5), ("pshuf", 4, 9), ("pshuf", 7, 1)] + ([("shuf", 6, 0), ("pshuf", 8, 3), ("pshuf", 6, 5)] if tier == "thorough" else []):
         specs.append((kind, n, k, samples_for(kind, n, k, tier), rng.u64(), None, rng.choice(["xoshiro", "splitmix", "wyrand", "chacha8"])))
+    # slices around the 8-, 16-bit (thorough: 20-bit) index boundaries: the quarter in which a tracked element ends up must be uniform
+    sizes = [65535, 65536, 65537] if tier == "quick" else [255, 256, 257, 65535, 65536, 65537, 65538, 70001, 131072, 1 << 20]
+    for n in sizes:
+        for (kind, k) in (("shufpos", 0), ("shufpos", n - 1), ("pshufpos", 0), ("pshufpos", 2)):
+            specs.append((kind, n, k, 4000 if n <= 1 << 17 else 1000 * 4, rng.u64(), None, rng.choice(["xoshiro", "splitmix", "wyrand"])))
     yield from run_stat(binary, specs, "frequency-test-samples", build)
